@@ -80,6 +80,7 @@ def run(chk):
     chk.rule("R20.3", "counter guarded by the switch mutex; first-in / last-out conditions after the update")
     chk.rule("R20.4", "lock-order graph acyclic")
     chk.rule("R20.5", "writer-preference shape (queue + no_readers on the reader side only)")
+    chk.rule("R20.6", "locks handed to a light switch are released by another thread than the one that acquired them: they must be plain, owner-less locks")
     chk.configs = ["py3"]
     W = world()
     m = W.p.modules["_rwlock"]
@@ -321,3 +322,19 @@ def run(chk):
     chk.extra["locks"] = sorted(nodes)
     chk.extra["edges"] = sorted(edges)
     chk.extra["held_on_return"] = {k: [tuple(h) for h in v] for k, v in net.items()}
+
+    # ---- R20.6 group locks are taken by the first member of a group and released by the last one,
+    # in general a different thread: a re-entrant (owner-checked) lock cannot be used for them
+    rw = W.p.cls("_rwlock:" + RW)
+    gfields = set()
+    for m_ in rw.methods.values():
+        for n in ast.walk(m_.node):
+            if isinstance(n, ast.Call) and isinstance(n.func, ast.Attribute) and n.func.attr in ("acquire", "release") and len(n.args) == 1 \
+                    and isinstance(n.args[0], ast.Attribute) and isinstance(n.args[0].value, ast.Name) and n.args[0].value.id == "self":
+                gfields.add(n.args[0].attr)
+    chk.floor("R20.6", "locks handed to a light switch", len(gfields), 2)
+    for fld in sorted(gfields):
+        vals = [norm_text(n.value) for m_ in rw.methods.values() for n in ast.walk(m_.node) if isinstance(n, ast.Assign) and any(isinstance(t, ast.Attribute) and t.attr == fld and isinstance(t.value, ast.Name) and t.value.id == "self" for t in n.targets)]
+        okl = bool(vals) and all(v in ("threading.Lock()", "Lock()", "threading.Semaphore(1)", "threading.BoundedSemaphore(1)", "threading.Semaphore()", "threading.BoundedSemaphore()") for v in vals)
+        chk.ob("R20.6", "%s.%s (a group lock) is created as a plain threading.Lock()" % (RW, fld), okl, loc="_rwlock:%s.__init__" % RW, key="C20|R20.6|%s" % fld.lstrip("_"),
+               detail="%s is handed to a light switch (acquired by the first member of a group, released by the last - generally another thread) but is created as %s: an owner-checked lock raises on release from another thread and stays held" % (fld, vals))
